@@ -1422,7 +1422,8 @@ class URL:
             if join_path[0] == "/":
                 path = join_path
             elif not orig_path:
-                path = f"/{join_path}"
+                # RFC 3986 5.2.3: the slash is only added under an authority
+                path = f"/{join_path}" if self._netloc else join_path
             elif orig_path[-1] == "/":
                 path = f"{orig_path}{join_path}"
             else:
